@@ -34,7 +34,7 @@ def q(*names):
     return ",".join('"%s"' % n for n in names)
 
 
-BASE = dict(WTYPES="3", ATYPES=q("p2kh"), NETS="FALSE", STYPES=q("P2PKH"), UAMTS=q("mid"), MAXUNSP=1,
+BASE = dict(WTYPES="3", ATYPES=q("p2kh"), NETS="FALSE", STYPES=q("P2PKH"), UAMTS=q("mid"), MAXUNSP=1, VOFFS="0",
             DTYPES=q("P2PKH"), DAMTS=q("k5"), MAXDEST=1, FEES=q("k1"), USEALL="FALSE", CHANGES=q("none"),
             MSGS=q("none"), SEQS=q("def"), LOCKS=q("def"), VERS=q("def"), SUBFEES="FALSE", MODES=q("send"),
             TUNETARGETS=q("none"), TUNEDELTAS=q("z"), RAWS="", SECOND="")
@@ -49,6 +49,9 @@ ALL_FEE = q("zero", "sat1", "k1", "def", "btc")
 ALL_TT = q("none", "first", "two", "all")
 ALL_TD = q("m1", "z", "p1")
 ALL_RAW = q("fwd", "fwd1", "rev", "first", "last")
+# output index of a listed output inside its previous transaction (balance/unspent.txt spells it %03d): around the
+# values an octal / truncating / off-by-one reading would confuse; the unlisted indexes below are decoy outputs
+ALL_VOFF = "0,1,7,8,9,10,17,18,64,99,100,255"
 
 
 def fam(**kw):
@@ -75,6 +78,9 @@ def families(quick, seed):
     # keys imported through .others (compressed / uncompressed), alone and mixed with the wallet's own
     f.append(("imp", fam(WTYPES="3,4", ATYPES=q("p2kh", "bech32"), STYPES=q("IMPC", "IMPU", "P2WPKH"), UAMTS=q("small", "btc"), MAXUNSP=2,
                          USEALL="FALSE,TRUE", TUNETARGETS=q("none", "all"), RAWS=q("rev")), 100 if quick else 600))
+    # listed outputs at high / zero-padded output indexes of previous transactions full of decoy outputs
+    f.append(("vout", fam(ATYPES=q("p2kh") if quick else q("p2kh", "bech32"), STYPES=q("P2PKH", "P2WPKH") if quick else q("P2PKH", "P2WPKH", "P2TR", "FPKH"), MAXUNSP=2, VOFFS=ALL_VOFF,
+                          USEALL="FALSE,TRUE", TUNETARGETS=q("none", "first", "all"), TUNEDELTAS=q("z", "p1"), RAWS=q("rev")), 300 if quick else 4000))
     # P2SH multisig outputs made of the wallet's keys: skipped by -send, signed through -raw after -p2sh
     f.append(("msig", fam(ATYPES=q("p2kh", "tap"), STYPES=q("P2PKH", "P2TR", "MS22", "MS23", "MS13F", "MS23F"), UAMTS=q("small"), MAXUNSP=2,
                           USEALL="FALSE,TRUE", RAWS=q("fwd", "rev") if quick else ALL_RAW), 80 if quick else 800))
@@ -91,7 +97,7 @@ def families(quick, seed):
 def wide(quick):
     """the whole space, walked at random"""
     return fam(WTYPES="3,4", ATYPES=ALL_AT, NETS="FALSE,TRUE", STYPES=ALL_ST + "," + q("IMPC", "MS23", "MS13F"), UAMTS=q("sat1", "dust", "small", "mid", "btc", "big", "huge"),
-               MAXUNSP=2 if quick else 4, DTYPES=ALL_DT, DAMTS=q("sat1", "dust", "k5", "mid", "btc"), MAXDEST=3, FEES=ALL_FEE, USEALL="FALSE,TRUE",
+               MAXUNSP=2 if quick else 4, VOFFS="0,8,10,100", DTYPES=ALL_DT, DAMTS=q("sat1", "dust", "k5", "mid", "btc"), MAXDEST=3, FEES=ALL_FEE, USEALL="FALSE,TRUE",
                CHANGES=q("none", "own", "foreign"), MSGS=q("none", "short", "long"), SEQS=ALL_SEQ, LOCKS=ALL_LOCK, VERS=ALL_VER, SUBFEES="FALSE,TRUE",
                MODES=q("send", "batch", "mixed"), TUNETARGETS=ALL_TT, TUNEDELTAS=ALL_TD, RAWS=q("fwd1", "rev") if quick else ALL_RAW, SECOND=q("sweep"))
 
@@ -215,8 +221,9 @@ def estimate(d):
     cfgs = count(d["WTYPES"]) * count(d["ATYPES"]) * count(d["NETS"])
     per = count(d["STYPES"]) * count(d["UAMTS"])
     lists = 0
+    nv = count(d["VOFFS"])
     for n in range(1, int(d["MAXUNSP"]) + 1):
-        lists += per * (2 * per) ** (n - 1)
+        lists += per * nv * (2 * per * nv) ** (n - 1)
     optA = count(d["FEES"]) * count(d["USEALL"]) * count(d["CHANGES"]) * count(d["SUBFEES"])
     optB = count(d["MSGS"]) * count(d["SEQS"]) * count(d["LOCKS"]) * count(d["VERS"])
     tt = count(d["TUNETARGETS"])
